@@ -110,6 +110,11 @@ def configs(tier, rng):
 def compare(cfg, ser, m):
     """differences between the serial run and one MPI run (discrete quantities exactly, values bit-wise)"""
     d = []
+    if 'ConvergenceError' in (m.get('all_exc') or []):
+        # a rank surrendered (too many restarts): the job is aborted; what the other ranks were blocked in does not matter
+        if ser['exc'] != 'ConvergenceError':
+            d.append(('exception', f"serial {ser['exc']} / MPI ConvergenceError"))
+        return d
     if m.get('deadlock'):
         d.append(('deadlock', str(m.get('msg') or m.get('failed'))[:200]))
         return d
@@ -205,6 +210,8 @@ def run(tier, seed):
                 rep.traces += 1
                 for ln, clause in viol[:2]:
                     o = byrid[rid]
+                    if 'ConvergenceError' in (o['mpi'].get('all_exc') or []) and clause in ('mpi.deadlock', 'mpi.orphan_send', 'mpi.unmatched_receive'):
+                        continue  # leftovers of a job aborted by ConvergenceError
                     fid = match_known(known, clause, o['cfg'], o['serial'], o['mpi'])
                     if fid:
                         n, t = rep.known.get(fid[0], (0, fid[1]))
